@@ -330,6 +330,11 @@ def edge_configs(tier_):
         for m in ("character", "stringlen", "boundary"):
             extra.append({"cfg": corpus.cfg(P, 0, 0, muts=[m], rate=1.0), "depth": 0, "seeds": consts, "full_bytes": True, "only_ops": TEXT,
                           "tag": "P%d byte sweep %s" % (P, m)})
+    # MARK scenarios: nested MARKs with every MARK-consuming opcode, deeper than the general enumeration goes
+    MARKOPS = [0x28, 0x4e, 0x8f, 0x5d, 0x7d, 0x29, 0x63, 0x90, 0x65, 0x75, 0x6c, 0x74, 0x64, 0x91, 0x31, 0x30, 0x69, 0x6f, 0x32]
+    for P in ((1, 4) if tier_ == "quick" else range(6)):
+        extra.append({"cfg": corpus.cfg(P, 0, 0), "depth": 4 if tier_ == "quick" else 5, "seeds": seeds[:2], "only_ops": MARKOPS,
+                      "tag": "P%d MARK scenarios d%d" % (P, 4 if tier_ == "quick" else 5)})
     if tier_ == "quick":
         return extra + [ec(5, 3, True, True), ec(5, 2), ec(4, 2, True, False), ec(3, 2), ec(2, 2, True, False), ec(1, 3), ec(0, 3),
                 ec(5, 2, unsafe=True, tag="P5 unsafe d2")]
@@ -345,6 +350,14 @@ def edges_stage(tier_, key):
         t0 = time.time()
         p = run([PFV, "edges", cf, prefix], timeout=7200)
         summary = json.loads(p.stdout.strip().split("\n")[-1])
+        # value sweep of the GLOBAL argument: every line of the embedded module table, then REDUCE / NEWOBJ;
+        # one witness per distinct simulated outcome, and every opcode the implementation enables after it
+        gf = os.path.join(d, "globals_spec.json"); json.dump({"protocols": list(range(6)), "step": 1}, open(gf, "w"))
+        gof = prefix + "globals.ndjson"
+        pg = run([PFV, "globals", gf, gof], timeout=3600)
+        gs = json.loads(pg.stdout.strip().split("\n")[-1])
+        summary.append({"file": gof, "tag": "GLOBAL value sweep (%d values x %d builders)" % (65536, len(gs)),
+                        "states": sum(x["distinct_outcomes"] for x in gs), "edges": sum(1 for l in open(gof) if l.strip())})
         t_gen = time.time() - t0
         files, chunk = [], 4000
         samples = []
